@@ -3,6 +3,7 @@
    spec_ok  = the observation satisfies the property (computed from the generator's ground truth). *)
 From Coq Require Import ZArith List Bool.
 From BNP Require Export Base.Prims Model.C17.
+From BNP Require Model.C01.
 Import ListNotations.
 Open Scope Z_scope.
 
@@ -14,7 +15,11 @@ Record case := {
   k_lengths : list Z;                                            (* get_contig_lengths() in index order *)
   k_contigs : list (list Z);                                     (* idx[name] for every record *)
   k_fetch : list (Z * Z * Z * list Z);                           (* (record number, a, b, returned bytes) *)
-  k_genome : list (Z * list Z)        (* Genome.from_file(..).read_sequence()[whole contig]: upper-cased by its DNA encoding *)
+  k_genome : list (Z * list Z);       (* Genome.from_file(..).read_sequence()[whole contig]: upper-cased by its DNA encoding *)
+  (* create_index with the reader asked for chunks of k_chunk bytes (0: not exercised) on the raw file bytes *)
+  k_chunk : Z;  k_chunk_raw : list Z;  k_chunk_err : bool;  k_chunk_index : list obs_idx;
+  (* a file too large to hand over: the shapes of its records and the .fai the library wrote with its own chunking *)
+  k_big_eollen : Z;  k_big_shapes : list shape;  k_big_index : list obs_idx
 }.
 Definition eol_of (c : case) : list Z := if k_crlf c then [13; 10] else [10].
 Definition idx_eqb (o : obs_idx) (i : idx) : bool :=
@@ -43,7 +48,15 @@ Definition spec_ok (c : case) : bool :=
   && all_true (map (fun '(n, a, b, got) =>
         zlist_eqb got (slice a b (r_seq (nth (Z.to_nat n) (k_recs c) dummy_rec)))) (k_fetch c))
   && all_true (map (fun '(n, got) =>
-        zlist_eqb got (map upper (r_seq (nth (Z.to_nat n) (k_recs c) dummy_rec)))) (k_genome c)).
+        zlist_eqb got (map upper (r_seq (nth (Z.to_nat n) (k_recs c) dummy_rec)))) (k_genome c))
+  (* the index built over a chunked read is the index of the file, however the reader chunked it (an error is
+     tolerated only as "chunk size too small", which the model must then predict as well) *)
+  && ((k_chunk c =? 0) || k_chunk_err c || idxs_eqb (k_chunk_index c) (spec_index (eol_of c) (k_recs c)))
+  && (match k_big_shapes c with
+      | [] => true
+      | ss => idxs_eqb (k_big_index c) (spec_index_shapes_from 0 (k_big_eollen c) ss)
+              && all_true (map (fun s => s_bytes s =? shape_bytes (k_big_eollen c) s) ss)
+      end).
 
 Definition model_ok (c : case) : bool :=
   let mi := map to_idx (k_index c) in      (* random access uses the index file as it is on disk *)
@@ -54,4 +67,11 @@ Definition model_ok (c : case) : bool :=
         zlist_eqb got (fetch_interval (nth (Z.to_nat n) mi dummy_idx) (k_file c) a b)) (k_fetch c))
   && all_true (map (fun '(n, got) =>
         let ix := nth (Z.to_nat n) mi dummy_idx in
-        zlist_eqb got (map upper (fetch_interval ix (k_file c) 0 (i_rlen ix)))) (k_genome c)).
+        zlist_eqb got (map upper (fetch_interval ix (k_file c) 0 (i_rlen ix)))) (k_genome c))
+  (* create_index: chunk the raw bytes with the reader model of C01 (wrapped FASTA, seekable file), index every
+     chunk, shift by the accumulated sizes *)
+  && ((k_chunk c =? 0)
+      || match Model.C01.read_chunks true Model.C01.MultiFasta Model.C01.Seek (Z.to_nat (k_chunk c)) (k_chunk_raw c) with
+         | Model.C01.Done chunks _ _ _ => negb (k_chunk_err c) && idxs_eqb (k_chunk_index c) (model_index_chunks chunks)
+         | _ => k_chunk_err c
+         end).
